@@ -50,7 +50,7 @@ func ruleQueueFifo(w *World, r *RuleResult) {
 			if e.Kind == "store" && e.LV.Op == "sel" && e.LV.S == cur {
 				v := stripConv(e.Val)
 				if v.Op == "rem" {
-					if _, ok := selOf(v.A[1], q.size); ok {
+					if q.isCap(v.A[1]) {
 						l := linearOf(v.A[0])
 						if l.Const == 1 && len(l.Coef) == 1 {
 							for _, a := range l.Atom {
@@ -66,6 +66,7 @@ func ruleQueueFifo(w *World, r *RuleResult) {
 		return false
 	}
 	back, front := "", ""
+	computedFrom := "" // Push derives the back position from this front cursor and the length
 	// Push
 	pp, _ := w.Paths(c.a.Push)
 	prm := c.a.Push.Params[1].Name()
@@ -75,8 +76,36 @@ func ruleQueueFifo(w *World, r *RuleResult) {
 				if idx, ok := isBuf(e.LV); ok {
 					cur := cursorOf(idx)
 					good := cur != "" && stripConv(e.Val).Op == "p" && stripConv(e.Val).S == prm && advances(p, cur)
-					r.check(good, "Push/back", c.posOf(&e), "new task stored at the back cursor, which then advances by one modulo the capacity", "Push stores "+e.Val.Show()+" at "+idx.Show()+" without (store the argument at a cursor, advance that cursor by one modulo the capacity)")
 					back = cur
+					// or no stored back cursor at all: the slot (front + length) % capacity, with the length then growing
+					if cur == "" && idx.Op == "rem" && q.isCap(idx.A[1]) {
+						l := linearOf(idx.A[0])
+						fr, hasLen := "", false
+						for k, a := range l.Atom {
+							if l.Coef[k] != 1 {
+								continue
+							}
+							if cu := cursorOf(a); cu != "" {
+								fr = cu
+							} else if _, ok := selOf(a, q.length); ok {
+								hasLen = true
+							}
+						}
+						grows := false
+						for _, e2 := range p.Events {
+							if e2.Kind == "store" {
+								if _, ok := selOf(e2.LV, q.length); ok && linearOf(e2.Val).Const == 1 {
+									grows = true
+								}
+							}
+						}
+						if fr != "" && hasLen && len(l.Atom) == 2 && l.Const == 0 && grows && stripConv(e.Val).Op == "p" && stripConv(e.Val).S == prm {
+							good = true
+							back = "(" + fr + "+length)"
+							computedFrom = fr
+						}
+					}
+					r.check(good, "Push/back", c.posOf(&e), "new task stored at the back of the ring (a back cursor that then advances by one, or front + length), modulo the capacity", "Push stores "+e.Val.Show()+" at "+idx.Show()+" without (store the argument at the back position, advance it by one modulo the capacity)")
 				}
 			}
 		}
@@ -97,6 +126,9 @@ func ruleQueueFifo(w *World, r *RuleResult) {
 		r.check(good, "Pop/front", w.Pos(c.a.Pop.Pos()), "oldest task taken at the front cursor, which then advances by one modulo the capacity", "Pop returns "+p.Ret[0].Show()+", not the element at a cursor that it then advances by one")
 		front = cur
 	}
+	if computedFrom != "" && computedFrom != front {
+		back = "" // the back position is not derived from the cursor Pop consumes from
+	}
 	r.check(back != "" && front != "" && back != front, "distinct-cursors", w.Pos(c.a.Push.Pos()), "Push and Pop use different cursors ("+back+" / "+front+"): first in, first out", "Push and Pop use the same cursor ("+back+"): last in, first out")
 	// peeking accessors read relative to the front cursor
 	for _, fn := range queueMethods(w, c) {
@@ -114,9 +146,9 @@ func ruleQueueFifo(w *World, r *RuleResult) {
 				if !ok {
 					continue
 				}
-				good := false
+				good := cursorOf(idx) == front && front != "" // the front element itself
 				if idx.Op == "rem" {
-					if _, ok := selOf(idx.A[1], q.size); ok {
+					if q.isCap(idx.A[1]) {
 						l := linearOf(idx.A[0])
 						for _, a := range l.Atom {
 							if cursorOf(a) == front && front != "" {
